@@ -38,9 +38,9 @@ ASSUMPTIONS = [
 LEVEL_TEXT = ("Sampled histories and (base, target) pairs; each is pushed "
               "through every bundle format and both merge-directive classes "
               "and compared with the source revision by revision.")
-LEVEL_NOTE = ("Histories are bounded (<= 8 revisions, <= 3 parents); format "
-              "0.8/0.9 cases whose revisions re-use a path inside one delta "
-              "are reported under the known-finding signature.")
+LEVEL_NOTE = ("Histories are bounded (<= 8 revisions, <= 3 parents). When the "
+              "reference merge from the branch itself raises, the bundle / "
+              "directive merges are only required to fail the same way.")
 REGISTERED = False
 NONTRIVIAL_FLOOR = {"quick": 30, "thorough": 1000}
 
